@@ -4,6 +4,7 @@ import (
 	"fmt"
 	"go/ast"
 	"go/constant"
+	"go/token"
 	"go/types"
 	"sort"
 	"strings"
@@ -121,12 +122,39 @@ func (e *Enum) setIsIota() {
 
 // fetchConstComment retrieve the comment, not exposed in go/types
 func fetchConstComment(pa *packages.Package, obj *types.Const) string {
-	node := nodeAt(pa, obj.Pos())
-	spec := node.(*ast.ValueSpec)
-	if spec.Comment == nil {
+	spec := valueSpecAt(pa, obj.Pos())
+	if spec == nil || spec.Comment == nil {
 		return ""
 	}
 	return strings.TrimSpace(spec.Comment.Text())
+}
+
+// valueSpecAt returns the constant specification containing [pos].
+// Note that the node found at [pos] is not always the specification itself :
+// in 'const A, B T = 0, 1', B is an *ast.Ident inside the specification.
+func valueSpecAt(pa *packages.Package, pos token.Pos) (out *ast.ValueSpec) {
+	declFile := pa.Fset.File(pos)
+	found := false
+	for _, file := range pa.Syntax { // select the right file
+		if pa.Fset.File(file.Pos()) != declFile {
+			continue
+		}
+		found = true
+		ast.Inspect(file, func(n ast.Node) bool {
+			if n == nil || !(n.Pos() <= pos && pos < n.End()) {
+				return false
+			}
+			if spec, ok := n.(*ast.ValueSpec); ok {
+				out = spec
+				return false
+			}
+			return true
+		})
+	}
+	if !found {
+		panic("missing source file in Package.Syntax " + pa.String())
+	}
+	return out
 }
 
 // fetchPkgEnums walks through all the constants defined by the given package
